@@ -1,11 +1,59 @@
 """C06: decided on the database-level Coq model (DB.v) — theorems in coq/Prop_C06.v, tie by correspondence."""
+import os
+
 from common import *  # noqa
 import dbtie
 
 PROFILE = {'p_write': 0.6}
 
 
+def enumerated(depth, alphabet_size=None):
+    """EVERY sequence of `depth` operations over a small alphabet of points, queries and updates (the property's own
+    quantifier), each followed by the validity flag, and closed by index-served reads and getters"""
+    import itertools
+    import dbgen
+    T, S = dbgen.T0, dbgen.SEC
+    p1 = {"time": T + 1 * S, "meas": "m1", "tags": {"a": "x"}, "fields": {"a": 1}}
+    p2 = {"time": T + 2 * S, "meas": "m2", "tags": {"a": "y", "b": "z"}, "fields": {"b": 2}}
+    p0 = {"time": T - 5 * S, "meas": "m1", "tags": {}, "fields": {"a": 2}}
+    tie = {"time": T + 2 * S, "meas": "m1", "tags": {"a": "x"}, "fields": {}}
+    qx = ("S", "tags", [("k", "a")], ("cmp", "==", ("s", "x")))
+    alphabet = [
+        ("insert", [dict(p1)], None), ("insert", [dict(p2)], None), ("insert", [dict(p0)], None), ("insert", [dict(tie), None, dict(p2)], None, "multiple"),
+        ("remove", qx, None), ("remove", ("not", ("S", "fields", [("k", "a")], ("cmp", "==", ("n", 1)))), None), ("remove_all",), ("drop", "m1"),
+        ("update", qx, {"fields": ("static", {"a": 2})}, None), ("update_all", {"fields": ("call", 3), "tags": ("static", {"u": "1"})}),
+        ("reindex",), ("count", ("S", "time", [], ("cmp", ">=", ("t", T + 1 * S))), None), ("handle", "m1", ("remove", ("noop", "tags"))),
+        ("update", ("S", "time", [], ("cmp", "<", ("t", T + 2 * S))), {"time": ("static", T + 9 * S)}, None), ("get_tag_keys", "m2"),
+    ][:alphabet_size]
+    tail = [("index_valid",), ("count", ("noop", "tags"), None), ("search", ("S", "time", [], ("cmp", ">=", ("t", T + 1 * S))), None, False),
+            ("count", ("and", qx, ("S", "time", [], ("cmp", "!=", ("t", T + 2 * S)))), "m1"), ("get_tag_keys", None), ("get_tag_values", [], None),
+            ("get_field_keys", None), ("get_field_values", "a", "m1"), ("get_timestamps", None), ("get_measurements",), ("len",), ("iter",)]
+    import copy
+    for seq in itertools.product(range(len(alphabet)), repeat=depth):
+        ops = []
+        for i in seq:
+            ops += [copy.deepcopy(alphabet[i]), ("index_valid",)]
+        yield ops + tail
+
+
 def main(tier, seed):
-    return dbtie.db_check("C06", tier, seed, PROFILE, 500, 8000, "Prop_C06",
-                          "user callables and re are an environment the theorems quantify over; the tie instantiates them with the twin table")
+    extra = []
+    if tier == "thorough":
+        # depth 3 over the 15-letter alphabet and depth 4 over its first 8 letters, both storages, automatic indexing on and off
+        for d, a in [(3, 15), (4, 8)]:
+            for ops in enumerated(d, a):
+                for csv, auto in dbtie.CONFIGS:
+                    extra.append((csv, auto, ops))
+    elif os.environ.get("VERIF_ENUM_SMOKE"):
+        for ops in enumerated(2, 15):
+            for csv, auto in dbtie.CONFIGS:
+                extra.append((csv, auto, ops))
+    return _main(tier, seed, extra)
+
+
+def _main(tier, seed, extra):
+    return dbtie.db_check("C06", tier, seed, PROFILE, 500, 4000, "Prop_C06",
+                          "user callables and re are an environment the theorems quantify over; the tie instantiates them with the twin table",
+                          extra_cases=extra, extra_cov={"enumerated_sequences": len(extra), "enumeration": "every operation sequence of depth 3 over a "
+                                                        "15-letter alphabet and of depth 4 over its first 8 letters (thorough tier)"})
 
